@@ -102,6 +102,14 @@ class Normalise(ast.NodeTransformer):
             return None
         return self.generic_visit(node)
 
+    def visit_Raise(self, node):
+        # `raise <new exception object> from e`: how the new object is built (inline constructor, helper
+        # function, message) is not part of the skeleton; `raise e` (the task's own exception) is
+        self.generic_visit(node)
+        if node.exc is not None and not isinstance(node.exc, ast.Name):
+            node.exc = ast.Name(id="NEW_EXCEPTION", ctx=ast.Load())
+        return node
+
     def visit_Name(self, node):
         if isinstance(node.ctx, ast.Store) or node.id in self.names:
             node.id = self.rn(node.id)
@@ -127,6 +135,25 @@ def normal_form(fn):
     return ast.dump(fn, annotate_fields=False, include_attributes=False)
 
 
+# drivers of which only the `with ParallelWorkManager(...) as pwm:` block and what follows it belong to the
+# skeleton (what precedes it computes progress totals and log lines)
+FROM_WITH = {("icf", "IntermediateColumnarFormatWriter.explode"), ("vcz", "VcfZarrWriter.encode_all_partitions")}
+
+
+def from_with_block(fn, what):
+    import copy
+
+    idx = [i for i, s in enumerate(fn.body) if isinstance(s, ast.With) and "ParallelWorkManager" in ast.unparse(s.items[0].context_expr)]
+    if len(idx) != 1:
+        raise Unsupported(what + ": expected exactly one work-manager with-block")
+    for s in fn.body[: idx[0]]:
+        for c in ast.walk(s):
+            if isinstance(c, ast.Call) and (ast.unparse(c.func).endswith(".submit") or "finalise" in ast.unparse(c.func)):
+                raise Unsupported(what + ": work submitted / finalised before the with-block")
+    return ast.FunctionDef(name="f", args=ast.arguments(posonlyargs=[], args=[], kwonlyargs=[], kw_defaults=[], defaults=[]),
+                           body=copy.deepcopy(fn.body[idx[0]:]), decorator_list=[], returns=None, type_params=[])
+
+
 def unit_forms(unit):
     trees = {}
     forms = {}
@@ -134,6 +161,8 @@ def unit_forms(unit):
         if mod not in trees:
             trees[mod] = ast.parse(open(os.path.join(REPO, SRC[mod])).read())
         fn = find(trees[mod], qual)
+        if (mod, qual) in FROM_WITH:
+            fn = from_with_block(fn, qual)
         forms[f"{mod}:{qual}"] = hashlib.sha256(normal_form(fn).encode()).hexdigest()
     if unit == "GenWorkers":
         # plink.convert: the `with ParallelWorkManager(...) as pwm: for ...: pwm.submit(...)` block
